@@ -187,6 +187,31 @@ def _pair_oracle(args):
             return ('bad', 'the unreferenced block of section %d did not stay in place' % (si + 1), text)
     return ('ok', None, text)
 
+def _ns_oracle(args):
+    """the same text converted by a generator built for another Akoma Ntoso namespace (XmlGenerator(uri, maker=get_maker('2.0')), the
+    documented way to target AKN 2.0): footnote resolution is the same document with the other namespace URI"""
+    seed, root = args
+    import random
+    from lxml import etree
+    from bluebell.xml import XmlGenerator
+    from cobalt.akn import get_maker, AKN_NAMESPACES
+    text, _ = pair_doc(random.Random(seed))
+    try:
+        a = impl.parser().parse_to_xml(text, root)
+        p2 = impl.parser()
+        p2.generator = XmlGenerator(p2.generator.frbr_uri, p2.generator.eid_prefix, maker=get_maker('2.0'))
+        b = p2.parse_to_xml(text, root)
+    except Exception as e:
+        return ('raised', impl.exc_kind(e), text)
+    import re
+    dm = lambda t: re.sub(r'date="\d{4}-\d{2}-\d{2}"', 'date="D"', t)
+    sa = dm(etree.tostring(a, encoding='unicode'))
+    sb = dm(etree.tostring(b, encoding='unicode')).replace(AKN_NAMESPACES['2.0'], AKN_NAMESPACES['3.0'])
+    if sa != sb:
+        i = next((i for i in range(min(len(sa), len(sb))) if sa[i] != sb[i]), min(len(sa), len(sb)))
+        return ('bad', 'with the AKN 2.0 maker the document differs beyond its namespace: 3.0 ...%s | 2.0 ...%s' % (sa[max(0, i - 60):i + 80], sb[max(0, i - 60):i + 80]), text)
+    return ('ok', None, text)
+
 # minimal trees: as deep as they are large, so that every placeholder and every move makes the tree deeper than its original size
 CORNER_TREES = [
     '<p xmlns="%s"><authorialNote displaced="footnote" marker="1"/></p>',
@@ -229,6 +254,11 @@ def search(ctx, budget):
             ctx.failures.append(({'stage': 'pairs', 'seed': j[0], 'root': j[1], 'text': r[2]}, r[1]))
         elif r[0] == 'ok':
             ctx.nontrivial(('pairs',) + j)
+    nj = pj[:ctx.n(60, 2000)]
+    for j, r in zip(nj, impl.pmap(_ns_oracle, nj, chunk=8)):
+        ctx.evaluations += 1; ctx.count('other_namespace_' + r[0])
+        if r[0] == 'bad':
+            ctx.failures.append(({'stage': 'namespace', 'seed': j[0], 'root': j[1], 'text': r[2]}, r[1]))
     ctx.sample({'root': cs[0][1], 'text': cs[0][3]})
 
 def probe_disagreement(ctx, stage, case):
@@ -244,6 +274,8 @@ def replay(obj):
         print('nothing to replay:', obj.get('broken_obligations')); return 1
     if case.get('stage') == 'pairs':
         r = _pair_oracle((case['seed'], case['root'])); print(r[:2]); return 1 if r[0] == 'bad' else 0
+    if case.get('stage') == 'namespace':
+        r = _ns_oracle((case['seed'], case['root'])); print(r[:2]); return 1 if r[0] == 'bad' else 0
     ok = stages.replay_stage(case)
     if 'text' in case and 'uri' in case:
         r = _oracle((case['uri'], case['root'], case['prefix'], case['text'])); print('oracle:', r)
